@@ -126,6 +126,32 @@ func c7rec(ctx *eval.Ctx, params []eval.Value) (eval.Value, error) {
 	return v*1000 + n, nil
 }
 
+// c7recSame re-enters the expression it is part of with THE CONTEXT IT WAS
+// HANDED (same *Ctx, same bindings), one level deep, while the outer
+// evaluation has operands pending.
+func c7recSame(ctx *eval.Ctx, params []eval.Value) (eval.Value, error) {
+	f, _ := ctx.VariableFetcher.(*c7f)
+	v, ok := params[0].(int64)
+	if f == nil || !ok {
+		return nil, ref.ErrBuiltin
+	}
+	if f.point != nil {
+		f.point("op:recsame")
+	}
+	if f.depth >= 1 || f.expr == nil {
+		return v + 1, nil
+	}
+	f.depth++
+	res, err := f.expr.Eval(ctx)
+	f.depth--
+	f.trace = append(f.trace, ref.Ev{Name: "recsame-inner", Res: res, Err: err})
+	if err != nil {
+		return nil, err
+	}
+	n, _ := res.(int64)
+	return v*1000 + n, nil
+}
+
 // ---- corpus ----
 
 type C7Call struct {
@@ -329,9 +355,15 @@ func C07Corpus() []*C7Prog {
 		return &C7Prog{Light: true, Name: name, Src: "(+ (rec n0) (d n1 n2) (if (= n0 n1) 0 (- n2 (rec n1))))", Vars: c7vars("n0", "n1", "n2"), Opt: o,
 			Calls: []C7Call{evalc("Eval#1", i64(1, 2, 3)...), evalc("Eval#2", i64(5, 5, 9)...), tryc("TryEval#all", nil, i64(4, 6, 8)...), insp[0]}}
 	}
+	reentSame := func(o drive.Opt, name string) *C7Prog {
+		return &C7Prog{Light: true, Name: name, Src: "(+ 100 20 (recsame n0) (d n1 n2) (if (= n0 n1) 0 (- n2 (recsame n1))) 3)", Vars: c7vars("n0", "n1", "n2"), Opt: o,
+			Calls: []C7Call{evalc("Eval#1", i64(1, 2, 3)...), evalc("Eval#2", i64(5, 5, 9)...), tryc("TryEval#all", nil, i64(4, 6, 8)...), insp[0]}}
+	}
 	ps := []*C7Prog{
 		reent(off, "re-entrant-operator"),
 		reent(ev(allOn, 1), "re-entrant-operator-events"),
+		reentSame(off, "re-entrant-operator-same-ctx"),
+		reentSame(allOn, "re-entrant-operator-same-ctx-optimised"),
 		{Name: "binary-custom+nary", Src: "(d (+ n0 n1 n2) (d n3 n4))", Vars: c7vars("n0", "n1", "n2", "n3", "n4"), Opt: off,
 			Calls: append([]C7Call{evalc("Eval#1", i64(1, 2, 3, 4, 5)...), evalc("Eval#2", i64(7, 7, 7, 8, 9)...),
 				evalc("Eval#fetchfail", int64(1), ref.ErrFetch, int64(3), int64(4), int64(5)),
@@ -474,6 +506,7 @@ func C7Compile(p *C7Prog) (*eval.Expr, error) {
 		cfg.OperatorMap[name] = c7op(name, fn)
 	}
 	cfg.OperatorMap["rec"] = c7rec
+	cfg.OperatorMap["recsame"] = c7recSame
 	cfg.OperatorMap["memo"] = c7memo
 	cfg.ConstantMap["KINT"] = int(12)
 	cfg.ConstantMap["KI8"] = int8(3)
